@@ -1,12 +1,1078 @@
-//! C02 — not built yet.
-use crate::runner::{Outcome, Summary};
-use crate::Ctx;
-use serde_json::Value;
+//! C02 — parsed programs print to text that re-parses to the same program (and the shared code of the
+//! QuilPrint group: C02, C04, C06).
+//!
+//! Shared: the abstraction function between real instructions and the JSON encoding of spec/QuilPrint.tla
+//!   to_abs  : Instruction -> JSON   (total on every Instruction variant)
+//!   from_abs: JSON -> Instruction   (through the public constructors, so that their validation is exercised)
+//!
+//! Encoding (TLA+ record = JSON object; see the constructors in spec/QuilPrint.tla):
+//!   qubit   {"t":"fixed","n":0} | {"t":"var","s":"q"} | {"t":"ph","id":1}
+//!   target  {"t":"fixed","s":"end"} | {"t":"ph","id":1}
+//!   memref  {"name":"ro","index":0}
+//!   expr    {"t":"num","re":PART,"im":PART} | pi | {"t":"var","v"} | {"t":"addr","m"} | {"t":"neg"|"pos","e"}
+//!           | {"t":"inf","op","l","r"} | {"t":"fn","f","e"}
+//!           PART = {"neg":bool,"m":{"r":lexeme as a real part,"i":lexeme as an imaginary part,"z":is zero,"q":int}}
+//!   string  (printed between quotes) = array of one-character strings
+//!   frame   {"name":STRING,"qubits":[..]}      waveform {"base","ext":Opt,"params":[{"key","val":expr}]} (sorted by key)
+//!   operand {"t":"int"|"real","neg":bool,"lex":magnitude lexeme} | {"t":"mref","m"}
+//!   instruction {"k":kind, ...}  kinds: Gate DefCal DefCalMeasure DefCircuit DefGate DefWaveform DefFrame Declare
+//!           Measure Reset Delay Fence Pulse Capture RawCapture FrameExpr SwapPhases Arith Logic Move Unary Compare
+//!           Convert Exchange Load Store Label Jump JumpWhen JumpUnless Halt Nop Wait Pragma Include Call
+//!
+//! C02 replay: TLC cases {prog, text, listing, t1, has_ph} from spec/mc/MC_QuilPrint.tla (Family "C02").
+//!   text -> Program::from_str = P;  P.to_quil() = t1;  from_str(t1) = P1 == P;  P1.to_quil() == t1.
+//!   The model's listing / t1 are compared too (divergence only).
+//! C02 drive: the repository's .quil fixtures, a corpus of spellings the printer never emits, and seeded
+//!   line-level mutations of both; events reset/parsed/printed/done go to spec/trace/QuilPrintTrace.tla, where
+//!   the model printer must reproduce the real text from the real listing.
 
-pub fn replay(_ctx: &Ctx, _case: &Value) -> Outcome {
-    panic!("C02: replay not implemented")
+use crate::runner::{Outcome, Summary, Violation};
+use crate::util;
+use crate::Ctx;
+use num_complex::Complex64;
+use quil_rs::expression::{interned, Expression, ExpressionFunction, InfixOperator, PrefixOperator};
+use quil_rs::instruction::*;
+use quil_rs::quil::Quil;
+use quil_rs::Program;
+use rand::seq::SliceRandom;
+use rand::Rng;
+use serde_json::{json, Map, Value};
+use std::collections::HashMap;
+use std::str::FromStr;
+
+// ------------------------------------------------------------------------------------ small helpers
+
+pub fn chars(s: &str) -> Value {
+    Value::Array(s.chars().map(|c| json!(c.to_string())).collect())
+}
+pub fn unchars(v: &Value) -> String {
+    v.as_array().unwrap_or_else(|| panic!("char array expected: {v}")).iter().map(|c| c.as_str().unwrap()).collect()
+}
+fn opt<T>(o: Option<T>, f: impl Fn(T) -> Value) -> Value {
+    match o {
+        Some(x) => json!({"some": f(x)}),
+        None => json!({"none": true}),
+    }
+}
+fn get_opt<'a>(v: &'a Value) -> Option<&'a Value> {
+    v.get("some")
+}
+fn st(v: &Value, k: &str) -> String {
+    v.get(k).and_then(|x| x.as_str()).unwrap_or_else(|| panic!("missing string field {k} in {v}")).to_string()
+}
+fn seq<'a>(v: &'a Value, k: &str) -> &'a Vec<Value> {
+    v.get(k).and_then(|x| x.as_array()).unwrap_or_else(|| panic!("missing array field {k} in {v}"))
+}
+fn strs(v: &Value, k: &str) -> Vec<String> {
+    seq(v, k).iter().map(|x| x.as_str().unwrap().to_string()).collect()
 }
 
-pub fn drive(_ctx: &Ctx) -> Summary {
-    panic!("C02: drive not implemented")
+/// Placeholders are identified by small integers in the encoding.
+#[derive(Default)]
+pub struct PhCtx {
+    qubits: HashMap<u64, QubitPlaceholder>,
+    targets: HashMap<u64, TargetPlaceholder>,
+    seen_q: Vec<QubitPlaceholder>,
+    seen_t: Vec<TargetPlaceholder>,
+}
+
+// ------------------------------------------------------------------------------------ numbers
+
+/// How lexical's writer (expression/mod.rs FORMAT_REAL_OPTIONS / FORMAT_IMAGINARY_OPTIONS) is expected to print a
+/// non-negative finite magnitude: plain decimal between the exponent breaks, scientific outside, ".0" trimmed for
+/// real parts only.  Independent of the code under test (Rust's shortest round-trip formatting).
+pub fn mag_lexemes(x: f64) -> (String, String) {
+    let x = x.abs();
+    if x == 0.0 {
+        return ("0".into(), "0.0".into());
+    }
+    let sci = format!("{x:e}"); // d.ddde[-]xx
+    let exp: i32 = sci.split('e').nth(1).unwrap().parse().unwrap();
+    if !(-5..=15).contains(&exp) {
+        let mant = sci.split('e').next().unwrap();
+        let im = if mant.contains('.') { sci.clone() } else { format!("{mant}.0e{exp}") };
+        return (sci, im);
+    }
+    let dec = format!("{x}");
+    if dec.contains('.') {
+        (dec.clone(), dec)
+    } else {
+        (dec.clone(), format!("{dec}.0"))
+    }
+}
+
+fn part_abs(x: f64) -> Value {
+    let (r, i) = mag_lexemes(x);
+    json!({"neg": x.is_sign_negative() && x != 0.0, "m": {"r": r, "i": i, "z": x == 0.0, "q": 0}})
+}
+pub fn num_abs(c: &Complex64) -> Value {
+    json!({"t": "num", "re": part_abs(c.re), "im": part_abs(c.im)})
+}
+fn part_val(p: &Value) -> f64 {
+    let m = &p["m"];
+    let x: f64 = if m["z"].as_bool().unwrap() { 0.0 } else { st(m, "r").parse().expect("magnitude lexeme") };
+    if p["neg"].as_bool().unwrap() {
+        -x
+    } else {
+        x
+    }
+}
+pub fn num_val(v: &Value) -> Complex64 {
+    Complex64::new(part_val(&v["re"]), part_val(&v["im"]))
+}
+
+// ------------------------------------------------------------------------------------ to_abs
+
+/// How expressions are projected: structurally, or by their value at sampled assignments (C04's "equivalent").
+#[derive(Clone, Copy, PartialEq)]
+pub enum ExprMode {
+    Structure,
+    Value,
+}
+
+pub struct AbsCtx<'a> {
+    pub mode: ExprMode,
+    pub ph: &'a mut PhCtx,
+}
+
+pub fn qubit_abs(q: &Qubit, ph: &mut PhCtx) -> Value {
+    match q {
+        Qubit::Fixed(n) => json!({"t": "fixed", "n": n}),
+        Qubit::Variable(s) => json!({"t": "var", "s": s}),
+        Qubit::Placeholder(p) => {
+            let id = match ph.seen_q.iter().position(|x| x == p) {
+                Some(i) => i,
+                None => {
+                    ph.seen_q.push(p.clone());
+                    ph.seen_q.len() - 1
+                }
+            };
+            json!({"t": "ph", "id": id + 1})
+        }
+    }
+}
+fn target_abs(t: &Target, ph: &mut PhCtx) -> Value {
+    match t {
+        Target::Fixed(s) => json!({"t": "fixed", "s": s}),
+        Target::Placeholder(p) => {
+            let id = match ph.seen_t.iter().position(|x| x == p) {
+                Some(i) => i,
+                None => {
+                    ph.seen_t.push(p.clone());
+                    ph.seen_t.len() - 1
+                }
+            };
+            json!({"t": "ph", "id": id + 1})
+        }
+    }
+}
+pub fn mref_abs(m: &MemoryReference) -> Value {
+    json!({"name": m.name, "index": m.index})
+}
+
+fn hash01(s: &str, salt: u64) -> f64 {
+    let h = crate::runner::hash_line(&format!("{s}#{salt}"));
+    ((h % 10_000) as f64) / 10_000.0 + 0.25
+}
+
+fn collect_names(e: &Expression, vars: &mut Vec<String>, mems: &mut Vec<(String, u64)>) {
+    match e {
+        Expression::Address(m) => mems.push((m.name.clone(), m.index)),
+        Expression::Variable(v) => vars.push(v.clone()),
+        Expression::FunctionCall(f) => collect_names(&f.expression, vars, mems),
+        Expression::Infix(i) => {
+            collect_names(&i.left, vars, mems);
+            collect_names(&i.right, vars, mems)
+        }
+        Expression::Prefix(p) => collect_names(&p.expression, vars, mems),
+        Expression::Number(_) | Expression::PiConstant() => {}
+    }
+}
+
+/// The value of an expression at three fixed pseudo-random assignments (complex values for variables, reals
+/// for memory cells), rounded for comparison with a tolerance by `approx_eq`.
+pub fn expr_values(e: &Expression) -> Value {
+    // DESIGN §2.2: Quil has no negative literals, so `-1` re-parses as -(1), whose imaginary part is -0.0 where the
+    // literal Number(-1) has +0.0; under `^` / sqrt with a negative real base the sign of zero selects the branch.
+    // An expression whose value depends on the sign of its literals' zero imaginary parts is not judged.
+    let plain = expr_values_raw(e);
+    if sign_of_zero_matters(e) {
+        return json!({"t": "val", "v": "branch-cut-sensitive"});
+    }
+    plain
+}
+
+/// The harness' own evaluator, used only to decide whether the value depends on the sign of a literal's zero
+/// imaginary part (expressions are interned with +0.0 == -0.0, so a flipped copy cannot be built as an Expression).
+/// `flip`: None = as is; Some((usize::MAX, mode)) = every literal; Some((k, mode)) = only the k-th literal (in
+/// evaluation order).  Printing turns -2.0i into -(2.0i) = (-0.0, -2.0): zero real parts change sign as well.
+fn own_eval(e: &Expression, flip: Option<(usize, u8)>, next: &mut usize, salt: u64) -> Complex64 {
+    match e {
+        Expression::Number(c) => {
+            let k = *next;
+            *next += 1;
+            match flip {
+                // mode bit 0: negate a zero imaginary part; bit 1: negate a zero real part
+                Some((which, mode)) if which == usize::MAX || which == k => Complex64::new(
+                    if mode & 2 != 0 && c.re == 0.0 { -c.re } else { c.re },
+                    if mode & 1 != 0 && c.im == 0.0 { -c.im } else { c.im },
+                ),
+                _ => *c,
+            }
+        }
+        Expression::PiConstant() => Complex64::new(std::f64::consts::PI, 0.0),
+        Expression::Variable(v) => Complex64::new(hash01(v, salt), hash01(v, salt + 100) - 0.7),
+        Expression::Address(m) => Complex64::new(hash01(&format!("{}[{}]", m.name, m.index), salt), 0.0),
+        Expression::Prefix(p) => {
+            let x = own_eval(&p.expression, flip, next, salt);
+            if p.operator == PrefixOperator::Minus { -x } else { x }
+        }
+        Expression::Infix(i) => {
+            let l = own_eval(&i.left, flip, next, salt);
+            let r = own_eval(&i.right, flip, next, salt);
+            match i.operator {
+                InfixOperator::Caret => l.powc(r),
+                InfixOperator::Plus => l + r,
+                InfixOperator::Minus => l - r,
+                InfixOperator::Slash => l / r,
+                InfixOperator::Star => l * r,
+            }
+        }
+        Expression::FunctionCall(f) => {
+            let x = own_eval(&f.expression, flip, next, salt);
+            match f.function {
+                ExpressionFunction::Cis => x.cos() + Complex64::i() * x.sin(),
+                ExpressionFunction::Cosine => x.cos(),
+                ExpressionFunction::Exponent => x.exp(),
+                ExpressionFunction::Sine => x.sin(),
+                ExpressionFunction::SquareRoot => x.sqrt(),
+            }
+        }
+    }
+}
+fn sign_of_zero_matters(e: &Expression) -> bool {
+    let close = |x: f64, y: f64| x == y || (x.is_nan() && y.is_nan())
+        || (x.is_finite() && y.is_finite() && (x - y).abs() <= 1e-9 * x.abs().max(y.abs()).max(1.0));
+    (0..3u64).any(|salt| {
+        let mut n = 0;
+        let a = own_eval(e, None, &mut n, salt);
+        let literals = n;
+        // printing turns a negative literal into a negated positive one (-1 -> -(1)), which flips the sign of that
+        // literal's zero imaginary part only: try each literal on its own, and all together
+        (0..literals).chain(std::iter::once(usize::MAX)).any(|which| {
+            (1..=3u8).any(|mode| {
+                let mut k = 0;
+                let b = own_eval(e, Some((which, mode)), &mut k, salt);
+                !(close(a.re, b.re) && close(a.im, b.im))
+            })
+        })
+    })
+}
+
+fn expr_values_raw(e: &Expression) -> Value {
+    let (mut vars, mut mems) = (vec![], vec![]);
+    collect_names(e, &mut vars, &mut mems);
+    let mut out = vec![];
+    for salt in 0..3u64 {
+        let variables: HashMap<String, Complex64> =
+            vars.iter().map(|v| (v.clone(), Complex64::new(hash01(v, salt), hash01(v, salt + 100) - 0.7))).collect();
+        let mut memory: HashMap<String, Vec<f64>> = HashMap::new();
+        for (name, index) in &mems {
+            let cell = memory.entry(name.clone()).or_default();
+            while cell.len() <= *index as usize {
+                let k = cell.len();
+                cell.push(hash01(&format!("{name}[{k}]"), salt));
+            }
+        }
+        match e.evaluate(&variables, &memory) {
+            Ok(c) => out.push(json!([c.re, c.im])),
+            Err(_) => out.push(json!("error")),
+        }
+    }
+    json!({"t": "val", "v": out})
+}
+
+pub fn expr_abs(e: &Expression, mode: ExprMode) -> Value {
+    if mode == ExprMode::Value {
+        return expr_values(e);
+    }
+    match e {
+        Expression::Number(c) => num_abs(c),
+        Expression::PiConstant() => json!({"t": "pi"}),
+        Expression::Variable(v) => json!({"t": "var", "v": v}),
+        Expression::Address(m) => json!({"t": "addr", "m": mref_abs(m)}),
+        Expression::Prefix(p) => json!({
+            "t": if p.operator == PrefixOperator::Minus { "neg" } else { "pos" }, "e": expr_abs(&p.expression, mode)}),
+        Expression::Infix(i) => json!({
+            "t": "inf", "op": i.operator.to_string().trim(), "l": expr_abs(&i.left, mode), "r": expr_abs(&i.right, mode)}),
+        Expression::FunctionCall(f) => json!({"t": "fn", "f": f.function.to_string(), "e": expr_abs(&f.expression, mode)}),
+    }
+}
+
+fn exprs_abs(es: &[Expression], mode: ExprMode) -> Value {
+    Value::Array(es.iter().map(|e| expr_abs(e, mode)).collect())
+}
+fn qubits_abs(qs: &[Qubit], ph: &mut PhCtx) -> Value {
+    Value::Array(qs.iter().map(|q| qubit_abs(q, ph)).collect())
+}
+fn frame_abs(f: &FrameIdentifier, ph: &mut PhCtx) -> Value {
+    json!({"name": chars(&f.name), "qubits": qubits_abs(&f.qubits, ph)})
+}
+fn split_wf_name(name: &str) -> (String, Value) {
+    match name.split_once('/') {
+        Some((b, e)) => (b.to_string(), json!({"some": e})),
+        None => (name.to_string(), json!({"none": true})),
+    }
+}
+fn wf_abs(w: &WaveformInvocation, mode: ExprMode) -> Value {
+    let (base, ext) = split_wf_name(&w.name);
+    let mut kv: Vec<(&String, &Expression)> = w.parameters.iter().collect();
+    kv.sort_by_key(|(k, _)| *k);
+    json!({"base": base, "ext": ext,
+           "params": kv.iter().map(|(k, v)| json!({"key": k, "val": expr_abs(v, mode)})).collect::<Vec<_>>()})
+}
+fn int_operand(v: i64) -> Value {
+    json!({"t": "int", "neg": v < 0, "lex": v.unsigned_abs().to_string()})
+}
+fn real_operand(v: f64) -> Value {
+    json!({"t": "real", "neg": v.is_sign_negative(), "lex": format!("{:?}", v.abs())})
+}
+fn arith_operand(o: &ArithmeticOperand) -> Value {
+    match o {
+        ArithmeticOperand::LiteralInteger(v) => int_operand(*v),
+        ArithmeticOperand::LiteralReal(v) => real_operand(*v),
+        ArithmeticOperand::MemoryReference(m) => json!({"t": "mref", "m": mref_abs(m)}),
+    }
+}
+fn mods_abs(ms: &[GateModifier]) -> Value {
+    Value::Array(ms.iter().map(|m| json!(m.to_quil_or_debug())).collect())
+}
+fn gate_abs(g: &Gate, c: &mut AbsCtx) -> Value {
+    json!({"k": "Gate", "name": g.name, "params": exprs_abs(&g.parameters, c.mode), "qubits": qubits_abs(&g.qubits, c.ph),
+           "mods": mods_abs(&g.modifiers)})
+}
+fn body_abs(is: &[Instruction], c: &mut AbsCtx) -> Value {
+    Value::Array(is.iter().map(|i| to_abs_with(i, c)).collect())
+}
+
+pub fn to_abs(i: &Instruction) -> Value {
+    let mut ph = PhCtx::default();
+    to_abs_with(i, &mut AbsCtx { mode: ExprMode::Structure, ph: &mut ph })
+}
+
+pub fn to_abs_with(i: &Instruction, c: &mut AbsCtx) -> Value {
+    let mode = c.mode;
+    match i {
+        Instruction::Gate(g) => gate_abs(g, c),
+        Instruction::CalibrationDefinition(d) => json!({
+            "k": "DefCal", "name": d.identifier.name, "params": exprs_abs(&d.identifier.parameters, mode),
+            "qubits": qubits_abs(&d.identifier.qubits, c.ph), "mods": mods_abs(&d.identifier.modifiers),
+            "body": body_abs(&d.instructions, c)}),
+        Instruction::MeasureCalibrationDefinition(d) => json!({
+            "k": "DefCalMeasure", "name": opt(d.identifier.name.as_ref(), |s| json!(s)),
+            "qubit": qubit_abs(&d.identifier.qubit, c.ph), "target": opt(d.identifier.target.as_ref(), |s| json!(s)),
+            "body": body_abs(&d.instructions, c)}),
+        Instruction::CircuitDefinition(d) => json!({
+            "k": "DefCircuit", "name": d.name, "params": d.parameters, "qubit_variables": d.qubit_variables,
+            "body": body_abs(&d.instructions, c)}),
+        Instruction::GateDefinition(d) => {
+            let spec = match &d.specification {
+                GateSpecification::Matrix(rows) => json!({"t": "matrix", "rows": rows.iter().map(|r| exprs_abs(r, mode)).collect::<Vec<_>>()}),
+                GateSpecification::Permutation(p) => json!({"t": "perm", "p": p}),
+                GateSpecification::PauliSum(s) => json!({
+                    "t": "pauli", "args": s.arguments,
+                    "terms": s.terms.iter().map(|t| json!({
+                        "word": t.arguments.iter().map(|(g, _)| format!("{g:?}")).collect::<String>(),
+                        "e": expr_abs(&t.expression, mode),
+                        "args": t.arguments.iter().map(|(_, a)| a.clone()).collect::<Vec<_>>()})).collect::<Vec<_>>()}),
+                GateSpecification::Sequence(s) => {
+                    // DefGateSequence keeps its fields private: read them back from the printed definition
+                    let (qubits, gates) = sequence_parts(d);
+                    let _ = s;
+                    json!({"t": "seq", "qubits": qubits, "gates": gates.iter().map(|g| gate_abs(g, c)).collect::<Vec<_>>()})
+                }
+            };
+            json!({"k": "DefGate", "name": d.name, "params": d.parameters, "spec": spec})
+        }
+        Instruction::WaveformDefinition(d) => {
+            let (base, ext) = split_wf_name(&d.name);
+            json!({"k": "DefWaveform", "base": base, "ext": ext, "params": d.definition.parameters,
+                   "matrix": exprs_abs(&d.definition.matrix, mode)})
+        }
+        Instruction::FrameDefinition(d) => json!({
+            "k": "DefFrame", "id": frame_abs(&d.identifier, c.ph),
+            "attrs": d.attributes.iter().map(|(k, v)| json!({"key": k, "val": match v {
+                AttributeValue::String(s) => json!({"t": "str", "s": chars(s)}),
+                AttributeValue::Expression(e) => json!({"t": "expr", "e": expr_abs(e, mode)})}})).collect::<Vec<_>>()}),
+        Instruction::Declaration(d) => json!({
+            "k": "Declare", "name": d.name, "size": {"ty": d.size.data_type.to_quil_or_debug(), "len": d.size.length},
+            "sharing": opt(d.sharing.as_ref(), |s| json!({
+                "name": s.name,
+                "offsets": s.offsets.iter().map(|o| json!({"offset": o.offset, "ty": o.data_type.to_quil_or_debug()})).collect::<Vec<_>>()}))}),
+        Instruction::Measurement(m) => json!({
+            "k": "Measure", "name": opt(m.name.as_ref(), |s| json!(s)), "qubit": qubit_abs(&m.qubit, c.ph),
+            "target": opt(m.target.as_ref(), mref_abs)}),
+        Instruction::Reset(r) => {
+            let q = r.qubit.as_ref().map(|q| qubit_abs(q, c.ph));
+            json!({"k": "Reset", "qubit": opt(q, |v| v)})
+        }
+        Instruction::Delay(d) => json!({
+            "k": "Delay", "duration": expr_abs(&d.duration, mode),
+            "frame_names": d.frame_names.iter().map(|s| chars(s)).collect::<Vec<_>>(), "qubits": qubits_abs(&d.qubits, c.ph)}),
+        Instruction::Fence(f) => json!({"k": "Fence", "qubits": qubits_abs(&f.qubits, c.ph)}),
+        Instruction::Pulse(p) => json!({
+            "k": "Pulse", "blocking": p.blocking, "frame": frame_abs(&p.frame, c.ph), "waveform": wf_abs(&p.waveform, mode)}),
+        Instruction::Capture(p) => json!({
+            "k": "Capture", "blocking": p.blocking, "frame": frame_abs(&p.frame, c.ph), "waveform": wf_abs(&p.waveform, mode),
+            "mref": mref_abs(&p.memory_reference)}),
+        Instruction::RawCapture(p) => json!({
+            "k": "RawCapture", "blocking": p.blocking, "frame": frame_abs(&p.frame, c.ph),
+            "duration": expr_abs(&p.duration, mode), "mref": mref_abs(&p.memory_reference)}),
+        Instruction::SetFrequency(p) => json!({"k": "FrameExpr", "cmd": "SET-FREQUENCY", "frame": frame_abs(&p.frame, c.ph), "e": expr_abs(&p.frequency, mode)}),
+        Instruction::SetPhase(p) => json!({"k": "FrameExpr", "cmd": "SET-PHASE", "frame": frame_abs(&p.frame, c.ph), "e": expr_abs(&p.phase, mode)}),
+        Instruction::SetScale(p) => json!({"k": "FrameExpr", "cmd": "SET-SCALE", "frame": frame_abs(&p.frame, c.ph), "e": expr_abs(&p.scale, mode)}),
+        Instruction::ShiftFrequency(p) => json!({"k": "FrameExpr", "cmd": "SHIFT-FREQUENCY", "frame": frame_abs(&p.frame, c.ph), "e": expr_abs(&p.frequency, mode)}),
+        Instruction::ShiftPhase(p) => json!({"k": "FrameExpr", "cmd": "SHIFT-PHASE", "frame": frame_abs(&p.frame, c.ph), "e": expr_abs(&p.phase, mode)}),
+        Instruction::SwapPhases(p) => json!({"k": "SwapPhases", "frame_1": frame_abs(&p.frame_1, c.ph), "frame_2": frame_abs(&p.frame_2, c.ph)}),
+        Instruction::Arithmetic(a) => json!({"k": "Arith", "op": a.operator.to_quil_or_debug(), "dst": mref_abs(&a.destination), "src": arith_operand(&a.source)}),
+        Instruction::BinaryLogic(a) => json!({"k": "Logic", "op": a.operator.to_quil_or_debug(), "dst": mref_abs(&a.destination),
+            "src": match &a.source {
+                BinaryOperand::LiteralInteger(v) => int_operand(*v),
+                BinaryOperand::MemoryReference(m) => json!({"t": "mref", "m": mref_abs(m)})}}),
+        Instruction::Move(a) => json!({"k": "Move", "dst": mref_abs(&a.destination), "src": arith_operand(&a.source)}),
+        Instruction::UnaryLogic(a) => json!({"k": "Unary", "op": a.operator.to_quil_or_debug(), "operand": mref_abs(&a.operand)}),
+        Instruction::Comparison(a) => json!({"k": "Compare", "op": a.operator.to_quil_or_debug(), "dst": mref_abs(&a.destination),
+            "lhs": mref_abs(&a.lhs), "rhs": match &a.rhs {
+                ComparisonOperand::LiteralInteger(v) => int_operand(*v),
+                ComparisonOperand::LiteralReal(v) => real_operand(*v),
+                ComparisonOperand::MemoryReference(m) => json!({"t": "mref", "m": mref_abs(m)})}}),
+        Instruction::Convert(a) => json!({"k": "Convert", "dst": mref_abs(&a.destination), "src": mref_abs(&a.source)}),
+        Instruction::Exchange(a) => json!({"k": "Exchange", "left": mref_abs(&a.left), "right": mref_abs(&a.right)}),
+        Instruction::Load(a) => json!({"k": "Load", "dst": mref_abs(&a.destination), "source": a.source, "offset": mref_abs(&a.offset)}),
+        Instruction::Store(a) => json!({"k": "Store", "destination": a.destination, "offset": mref_abs(&a.offset), "src": arith_operand(&a.source)}),
+        Instruction::Label(l) => json!({"k": "Label", "target": target_abs(&l.target, c.ph)}),
+        Instruction::Jump(l) => json!({"k": "Jump", "target": target_abs(&l.target, c.ph)}),
+        Instruction::JumpWhen(l) => json!({"k": "JumpWhen", "target": target_abs(&l.target, c.ph), "cond": mref_abs(&l.condition)}),
+        Instruction::JumpUnless(l) => json!({"k": "JumpUnless", "target": target_abs(&l.target, c.ph), "cond": mref_abs(&l.condition)}),
+        Instruction::Halt() => json!({"k": "Halt"}),
+        Instruction::Nop() => json!({"k": "Nop"}),
+        Instruction::Wait() => json!({"k": "Wait"}),
+        Instruction::Pragma(p) => json!({
+            "k": "Pragma", "name": p.name,
+            "args": p.arguments.iter().map(|a| match a {
+                PragmaArgument::Identifier(s) => json!({"t": "id", "s": s}),
+                PragmaArgument::Integer(n) => json!({"t": "int", "lex": n.to_string()})}).collect::<Vec<_>>(),
+            "data": opt(p.data.as_ref(), |s| chars(s))}),
+        Instruction::Include(x) => json!({"k": "Include", "filename": chars(&x.filename)}),
+        Instruction::Call(x) => json!({
+            "k": "Call", "name": x.name,
+            "args": x.arguments().iter().map(|a| match a {
+                UnresolvedCallArgument::Identifier(s) => json!({"t": "id", "s": s}),
+                UnresolvedCallArgument::MemoryReference(m) => json!({"t": "mref", "m": mref_abs(m)}),
+                UnresolvedCallArgument::Immediate(v) => json!({"t": "imm", "v": if mode == ExprMode::Value {
+                    json!({"t": "val", "v": [[v.re, v.im]]}) } else { num_abs(v) }})}).collect::<Vec<_>>()}),
+    }
+}
+
+/// qubit parameters and gates of a SEQUENCE gate definition (DefGateSequence has no public accessors): re-read
+/// them from the definition's own printed form with a non-sequence-validating parse of the lines.
+fn sequence_parts(d: &GateDefinition) -> (Vec<String>, Vec<Gate>) {
+    let text = d.to_quil_or_debug();
+    let mut lines = text.lines();
+    let head = lines.next().unwrap_or("");
+    // DEFGATE name(params) q1 q2 AS SEQUENCE:
+    let before_as = head.rsplit_once(" AS ").map(|x| x.0).unwrap_or(head);
+    let after_name = match before_as.find(')') {
+        Some(i) => &before_as[i + 1..],
+        None => before_as.splitn(3, ' ').nth(2).unwrap_or(""),
+    };
+    let qubits: Vec<String> = after_name.split_whitespace().map(|s| s.to_string()).collect();
+    let gates = lines
+        .filter(|l| !l.trim().is_empty())
+        .map(|l| match Instruction::from_str(l.trim()) {
+            Ok(Instruction::Gate(g)) => g,
+            other => panic!("harness: sequence element {l:?} is not a gate: {other:?}"),
+        })
+        .collect();
+    (qubits, gates)
+}
+
+// ------------------------------------------------------------------------------------ from_abs
+
+pub fn qubit_from(v: &Value, ph: &mut PhCtx) -> Qubit {
+    match st(v, "t").as_str() {
+        "fixed" => Qubit::Fixed(v["n"].as_u64().unwrap()),
+        "var" => Qubit::Variable(st(v, "s")),
+        _ => Qubit::Placeholder(ph.qubits.entry(v["id"].as_u64().unwrap()).or_default().clone()),
+    }
+}
+fn target_from(v: &Value, ph: &mut PhCtx) -> Target {
+    match st(v, "t").as_str() {
+        "fixed" => Target::Fixed(st(v, "s")),
+        _ => Target::Placeholder(
+            ph.targets.entry(v["id"].as_u64().unwrap()).or_insert_with(|| TargetPlaceholder::new("label".to_string())).clone()),
+    }
+}
+pub fn mref_from(v: &Value) -> MemoryReference {
+    MemoryReference::new(st(v, "name"), v["index"].as_u64().unwrap())
+}
+pub fn expr_from(v: &Value) -> Expression {
+    let a = match st(v, "t").as_str() {
+        "num" => interned::number(num_val(v)),
+        "pi" => interned::pi(),
+        "var" => interned::variable(st(v, "v")),
+        "addr" => interned::address(mref_from(&v["m"])),
+        "neg" => interned::prefix(PrefixOperator::Minus, expr_from(&v["e"]).into()),
+        "pos" => interned::prefix(PrefixOperator::Plus, expr_from(&v["e"]).into()),
+        "inf" => {
+            let op = match st(v, "op").as_str() {
+                "+" => InfixOperator::Plus,
+                "-" => InfixOperator::Minus,
+                "*" => InfixOperator::Star,
+                "/" => InfixOperator::Slash,
+                "^" => InfixOperator::Caret,
+                o => panic!("operator {o}"),
+            };
+            interned::infix(expr_from(&v["l"]).into(), op, expr_from(&v["r"]).into())
+        }
+        "fn" => {
+            let f = match st(v, "f").as_str() {
+                "cis" => ExpressionFunction::Cis,
+                "cos" => ExpressionFunction::Cosine,
+                "exp" => ExpressionFunction::Exponent,
+                "sin" => ExpressionFunction::Sine,
+                "sqrt" => ExpressionFunction::SquareRoot,
+                o => panic!("function {o}"),
+            };
+            interned::function_call(f, expr_from(&v["e"]).into())
+        }
+        o => panic!("expression tag {o}"),
+    };
+    (*a).clone()
+}
+
+fn exprs_from(v: &Value, k: &str) -> Vec<Expression> {
+    seq(v, k).iter().map(expr_from).collect()
+}
+fn qubits_from(v: &Value, k: &str, ph: &mut PhCtx) -> Vec<Qubit> {
+    seq(v, k).iter().map(|q| qubit_from(q, ph)).collect()
+}
+fn frame_from(v: &Value, ph: &mut PhCtx) -> FrameIdentifier {
+    FrameIdentifier::new(unchars(&v["name"]), qubits_from(v, "qubits", ph))
+}
+fn wf_name_from(v: &Value) -> String {
+    match get_opt(&v["ext"]) {
+        Some(e) => format!("{}/{}", st(v, "base"), e.as_str().unwrap()),
+        None => st(v, "base"),
+    }
+}
+fn wf_from(v: &Value) -> WaveformInvocation {
+    let mut p = WaveformParameters::new();
+    for kv in seq(v, "params") {
+        p.insert(st(kv, "key"), expr_from(&kv["val"]));
+    }
+    WaveformInvocation::new(wf_name_from(v), p)
+}
+fn signed_i64(v: &Value) -> i64 {
+    let m: i128 = st(v, "lex").parse().expect("integer lexeme");
+    let x = if v["neg"].as_bool().unwrap() { -m } else { m };
+    i64::try_from(x).expect("i64 operand")
+}
+fn signed_f64(v: &Value) -> f64 {
+    let m: f64 = st(v, "lex").parse().expect("real lexeme");
+    if v["neg"].as_bool().unwrap() {
+        -m
+    } else {
+        m
+    }
+}
+fn arith_operand_from(v: &Value) -> ArithmeticOperand {
+    match st(v, "t").as_str() {
+        "int" => ArithmeticOperand::LiteralInteger(signed_i64(v)),
+        "real" => ArithmeticOperand::LiteralReal(signed_f64(v)),
+        _ => ArithmeticOperand::MemoryReference(mref_from(&v["m"])),
+    }
+}
+fn mods_from(v: &Value) -> Vec<GateModifier> {
+    strs(v, "mods")
+        .iter()
+        .map(|m| match m.as_str() {
+            "CONTROLLED" => GateModifier::Controlled,
+            "DAGGER" => GateModifier::Dagger,
+            "FORKED" => GateModifier::Forked,
+            o => panic!("modifier {o}"),
+        })
+        .collect()
+}
+fn scalar_from(s: &str) -> ScalarType {
+    match s {
+        "BIT" => ScalarType::Bit,
+        "INTEGER" => ScalarType::Integer,
+        "OCTET" => ScalarType::Octet,
+        "REAL" => ScalarType::Real,
+        o => panic!("scalar type {o}"),
+    }
+}
+fn gate_from(v: &Value, ph: &mut PhCtx) -> Gate {
+    Gate::new(&st(v, "name"), exprs_from(v, "params"), qubits_from(v, "qubits", ph), mods_from(v))
+        .unwrap_or_else(|e| panic!("harness: alphabet gate rejected by Gate::new: {e}"))
+}
+fn body_from(v: &Value, ph: &mut PhCtx) -> Vec<Instruction> {
+    seq(v, "body").iter().map(|i| from_abs_with(i, ph)).collect()
+}
+
+#[allow(dead_code)]
+pub fn from_abs(v: &Value) -> Instruction {
+    let mut ph = PhCtx::default();
+    from_abs_with(v, &mut ph)
+}
+
+/// Build the real instruction through the public constructors (a constructor that rejects an alphabet value is a
+/// harness/alphabet error and panics: the alphabets only hold well-formed values).
+pub fn from_abs_with(v: &Value, ph: &mut PhCtx) -> Instruction {
+    let k = st(v, "k");
+    match k.as_str() {
+        "Gate" => Instruction::Gate(gate_from(v, ph)),
+        "DefCal" => Instruction::CalibrationDefinition(CalibrationDefinition::new(
+            CalibrationIdentifier::new(st(v, "name"), mods_from(v), exprs_from(v, "params"), qubits_from(v, "qubits", ph))
+                .expect("calibration identifier"),
+            body_from(v, ph),
+        )),
+        "DefCalMeasure" => Instruction::MeasureCalibrationDefinition(MeasureCalibrationDefinition::new(
+            MeasureCalibrationIdentifier::new(
+                get_opt(&v["name"]).map(|s| s.as_str().unwrap().to_string()),
+                qubit_from(&v["qubit"], ph),
+                get_opt(&v["target"]).map(|s| s.as_str().unwrap().to_string()),
+            ),
+            body_from(v, ph),
+        )),
+        "DefCircuit" => Instruction::CircuitDefinition(CircuitDefinition::new(
+            st(v, "name"),
+            strs(v, "params"),
+            strs(v, "qubit_variables"),
+            body_from(v, ph),
+        )),
+        "DefGate" => {
+            let sp = &v["spec"];
+            let spec = match st(sp, "t").as_str() {
+                "matrix" => GateSpecification::Matrix(seq(sp, "rows").iter().map(|r| r.as_array().unwrap().iter().map(expr_from).collect()).collect()),
+                "perm" => GateSpecification::Permutation(seq(sp, "p").iter().map(|n| n.as_u64().unwrap()).collect()),
+                "pauli" => {
+                    let terms = seq(sp, "terms")
+                        .iter()
+                        .map(|t| {
+                            let word: Vec<PauliGate> = st(t, "word")
+                                .chars()
+                                .map(|c| PauliGate::from_str(&c.to_string()).expect("pauli letter"))
+                                .collect();
+                            PauliTerm::new(word.into_iter().zip(strs(t, "args")).collect(), expr_from(&t["e"]))
+                        })
+                        .collect();
+                    GateSpecification::PauliSum(PauliSum::new(strs(sp, "args"), terms).expect("pauli sum"))
+                }
+                "seq" => GateSpecification::Sequence(
+                    DefGateSequence::try_new(strs(sp, "qubits"), seq(sp, "gates").iter().map(|g| gate_from(g, ph)).collect())
+                        .expect("gate sequence"),
+                ),
+                o => panic!("gate specification {o}"),
+            };
+            Instruction::GateDefinition(GateDefinition::new(st(v, "name"), strs(v, "params"), spec).expect("gate definition"))
+        }
+        "DefWaveform" => Instruction::WaveformDefinition(WaveformDefinition::new(
+            wf_name_from(v),
+            Waveform::new(exprs_from(v, "matrix"), strs(v, "params")),
+        )),
+        "DefFrame" => {
+            let mut attrs = FrameAttributes::new();
+            for a in seq(v, "attrs") {
+                let val = if st(&a["val"], "t") == "str" {
+                    AttributeValue::String(unchars(&a["val"]["s"]))
+                } else {
+                    AttributeValue::Expression(expr_from(&a["val"]["e"]))
+                };
+                attrs.insert(st(a, "key"), val);
+            }
+            Instruction::FrameDefinition(FrameDefinition::new(frame_from(&v["id"], ph), attrs))
+        }
+        "Declare" => Instruction::Declaration(Declaration::new(
+            st(v, "name"),
+            Vector::new(scalar_from(&st(&v["size"], "ty")), v["size"]["len"].as_u64().unwrap()),
+            get_opt(&v["sharing"]).map(|s| {
+                Sharing::new(
+                    st(s, "name"),
+                    seq(s, "offsets").iter().map(|o| Offset::new(o["offset"].as_u64().unwrap(), scalar_from(&st(o, "ty")))).collect(),
+                )
+            }),
+        )),
+        "Measure" => Instruction::Measurement(Measurement::new(
+            get_opt(&v["name"]).map(|s| s.as_str().unwrap().to_string()),
+            qubit_from(&v["qubit"], ph),
+            get_opt(&v["target"]).map(mref_from),
+        )),
+        "Reset" => Instruction::Reset(Reset::new(get_opt(&v["qubit"]).map(|q| qubit_from(q, ph)))),
+        "Delay" => Instruction::Delay(Delay::new(
+            expr_from(&v["duration"]),
+            seq(v, "frame_names").iter().map(unchars).collect(),
+            qubits_from(v, "qubits", ph),
+        )),
+        "Fence" => Instruction::Fence(Fence::new(qubits_from(v, "qubits", ph))),
+        "Pulse" => Instruction::Pulse(Pulse::new(v["blocking"].as_bool().unwrap(), frame_from(&v["frame"], ph), wf_from(&v["waveform"]))),
+        "Capture" => Instruction::Capture(Capture::new(
+            v["blocking"].as_bool().unwrap(),
+            frame_from(&v["frame"], ph),
+            mref_from(&v["mref"]),
+            wf_from(&v["waveform"]),
+        )),
+        "RawCapture" => Instruction::RawCapture(RawCapture::new(
+            v["blocking"].as_bool().unwrap(),
+            frame_from(&v["frame"], ph),
+            expr_from(&v["duration"]),
+            mref_from(&v["mref"]),
+        )),
+        "FrameExpr" => {
+            let f = frame_from(&v["frame"], ph);
+            let e = expr_from(&v["e"]);
+            match st(v, "cmd").as_str() {
+                "SET-FREQUENCY" => Instruction::SetFrequency(SetFrequency::new(f, e)),
+                "SET-PHASE" => Instruction::SetPhase(SetPhase::new(f, e)),
+                "SET-SCALE" => Instruction::SetScale(SetScale::new(f, e)),
+                "SHIFT-FREQUENCY" => Instruction::ShiftFrequency(ShiftFrequency::new(f, e)),
+                "SHIFT-PHASE" => Instruction::ShiftPhase(ShiftPhase::new(f, e)),
+                o => panic!("frame command {o}"),
+            }
+        }
+        "SwapPhases" => Instruction::SwapPhases(SwapPhases::new(frame_from(&v["frame_1"], ph), frame_from(&v["frame_2"], ph))),
+        "Arith" => Instruction::Arithmetic(Arithmetic::new(
+            match st(v, "op").as_str() {
+                "ADD" => ArithmeticOperator::Add,
+                "SUB" => ArithmeticOperator::Subtract,
+                "MUL" => ArithmeticOperator::Multiply,
+                "DIV" => ArithmeticOperator::Divide,
+                o => panic!("arithmetic operator {o}"),
+            },
+            mref_from(&v["dst"]),
+            arith_operand_from(&v["src"]),
+        )),
+        "Logic" => Instruction::BinaryLogic(BinaryLogic::new(
+            match st(v, "op").as_str() {
+                "AND" => BinaryOperator::And,
+                "IOR" => BinaryOperator::Ior,
+                "XOR" => BinaryOperator::Xor,
+                "SHL" => BinaryOperator::Shl,
+                "SHR" => BinaryOperator::Shr,
+                "ASHR" => BinaryOperator::Ashr,
+                o => panic!("logic operator {o}"),
+            },
+            mref_from(&v["dst"]),
+            if st(&v["src"], "t") == "int" {
+                BinaryOperand::LiteralInteger(signed_i64(&v["src"]))
+            } else {
+                BinaryOperand::MemoryReference(mref_from(&v["src"]["m"]))
+            },
+        )),
+        "Move" => Instruction::Move(Move::new(mref_from(&v["dst"]), arith_operand_from(&v["src"]))),
+        "Unary" => Instruction::UnaryLogic(UnaryLogic::new(
+            if st(v, "op") == "NEG" { UnaryOperator::Neg } else { UnaryOperator::Not },
+            mref_from(&v["operand"]),
+        )),
+        "Compare" => Instruction::Comparison(Comparison::new(
+            match st(v, "op").as_str() {
+                "EQ" => ComparisonOperator::Equal,
+                "GE" => ComparisonOperator::GreaterThanOrEqual,
+                "GT" => ComparisonOperator::GreaterThan,
+                "LE" => ComparisonOperator::LessThanOrEqual,
+                "LT" => ComparisonOperator::LessThan,
+                o => panic!("comparison operator {o}"),
+            },
+            mref_from(&v["dst"]),
+            mref_from(&v["lhs"]),
+            match st(&v["rhs"], "t").as_str() {
+                "int" => ComparisonOperand::LiteralInteger(signed_i64(&v["rhs"])),
+                "real" => ComparisonOperand::LiteralReal(signed_f64(&v["rhs"])),
+                _ => ComparisonOperand::MemoryReference(mref_from(&v["rhs"]["m"])),
+            },
+        )),
+        "Convert" => Instruction::Convert(Convert::new(mref_from(&v["dst"]), mref_from(&v["src"]))),
+        "Exchange" => Instruction::Exchange(Exchange::new(mref_from(&v["left"]), mref_from(&v["right"]))),
+        "Load" => Instruction::Load(Load::new(mref_from(&v["dst"]), st(v, "source"), mref_from(&v["offset"]))),
+        "Store" => Instruction::Store(Store::new(st(v, "destination"), mref_from(&v["offset"]), arith_operand_from(&v["src"]))),
+        "Label" => Instruction::Label(Label::new(target_from(&v["target"], ph))),
+        "Jump" => Instruction::Jump(Jump::new(target_from(&v["target"], ph))),
+        "JumpWhen" => Instruction::JumpWhen(JumpWhen::new(target_from(&v["target"], ph), mref_from(&v["cond"]))),
+        "JumpUnless" => Instruction::JumpUnless(JumpUnless::new(target_from(&v["target"], ph), mref_from(&v["cond"]))),
+        "Halt" => Instruction::Halt(),
+        "Nop" => Instruction::Nop(),
+        "Wait" => Instruction::Wait(),
+        "Pragma" => Instruction::Pragma(Pragma::new(
+            st(v, "name"),
+            seq(v, "args")
+                .iter()
+                .map(|a| {
+                    if st(a, "t") == "id" {
+                        PragmaArgument::Identifier(st(a, "s"))
+                    } else {
+                        PragmaArgument::Integer(st(a, "lex").parse().expect("pragma integer"))
+                    }
+                })
+                .collect(),
+            get_opt(&v["data"]).map(unchars),
+        )),
+        "Include" => Instruction::Include(Include::new(unchars(&v["filename"]))),
+        "Call" => Instruction::Call(
+            Call::try_new(
+                st(v, "name"),
+                seq(v, "args")
+                    .iter()
+                    .map(|a| match st(a, "t").as_str() {
+                        "id" => UnresolvedCallArgument::Identifier(st(a, "s")),
+                        "mref" => UnresolvedCallArgument::MemoryReference(mref_from(&a["m"])),
+                        _ => UnresolvedCallArgument::Immediate(num_val(&a["v"])),
+                    })
+                    .collect(),
+            )
+            .expect("call"),
+        ),
+        o => panic!("instruction kind {o}"),
+    }
+}
+
+pub fn program_abs(p: &Program) -> Vec<Value> {
+    let mut ph = PhCtx::default();
+    p.to_instructions().iter().map(|i| to_abs_with(i, &mut AbsCtx { mode: ExprMode::Structure, ph: &mut ph })).collect()
+}
+
+/// the model's magnitudes carry a stand-in value `q`; the real ones do not: compare without it
+pub fn strip_q(v: &Value) -> Value {
+    match v {
+        Value::Object(m) => {
+            let mut o = Map::new();
+            for (k, x) in m {
+                if k == "q" && m.contains_key("r") && m.contains_key("i") {
+                    continue;
+                }
+                o.insert(k.clone(), strip_q(x));
+            }
+            Value::Object(o)
+        }
+        Value::Array(a) => Value::Array(a.iter().map(strip_q).collect()),
+        other => other.clone(),
+    }
+}
+
+// ------------------------------------------------------------------------------------ C02: the property
+
+/// What the statement demands for one accepted text.  `None` = holds.
+pub struct RoundTrip {
+    pub parsed: Option<Program>,
+    pub t1: Option<String>,
+    pub failure: Option<(String, Value, Value)>, // observable, expected, actual
+}
+
+pub fn round_trip(text: &str) -> RoundTrip {
+    let p = match Program::from_str(text) {
+        Ok(p) => p,
+        Err(_) => return RoundTrip { parsed: None, t1: None, failure: None },
+    };
+    let t1 = match p.to_quil() {
+        Ok(t) => t,
+        Err(e) => {
+            return RoundTrip { parsed: Some(p), t1: None, failure: Some(("serialization of the parsed program".into(), json!("Ok"), json!(e.to_string()))) }
+        }
+    };
+    let failure = match Program::from_str(&t1) {
+        Err(e) => Some(("printed text parses".to_string(), json!("Ok"), json!(format!("{e}")))),
+        Ok(p1) => {
+            if p1 != p {
+                Some(("re-parsed program equals the program".to_string(), json!(program_abs(&p)), json!(program_abs(&p1))))
+            } else {
+                match p1.to_quil() {
+                    Err(e) => Some(("second serialization".to_string(), json!("Ok"), json!(e.to_string()))),
+                    Ok(t2) if t2 != t1 => Some(("second serialization is byte-identical".to_string(), json!(t1), json!(t2))),
+                    // a table kept in a hash map lists its entries in an order that varies from one Program value to
+                    // the next: parse and print a few more times (each parse builds fresh tables)
+                    Ok(_) => (0..6).find_map(|k| match Program::from_str(&t1).ok().and_then(|q| q.to_quil().ok()) {
+                        Some(tk) if tk == t1 => None,
+                        other => Some((format!("second serialization is byte-identical (repetition {k})"), json!(t1), json!(other))),
+                    }),
+                }
+            }
+        }
+    };
+    RoundTrip { parsed: Some(p), t1: Some(t1), failure }
+}
+
+fn has_operands(p: &Program) -> bool {
+    p.to_instructions().iter().any(|i| !matches!(i, Instruction::Nop() | Instruction::Halt() | Instruction::Wait()))
+}
+
+pub fn replay(_ctx: &Ctx, case: &Value) -> Outcome {
+    if let Some(h) = case.get("history") {
+        let text = st(&h[0], "src");
+        let rt = round_trip(&text);
+        let mut o = Outcome::ok(rt.parsed.as_ref().map(has_operands).unwrap_or(false));
+        if let Some((obs, want, got)) = rt.failure {
+            o.violate(Violation::new(&obs, want, got).note(format!("source {text:?}")));
+        }
+        return o;
+    }
+    let text = st(case, "text");
+    let rt = round_trip(&text);
+    let Some(p) = rt.parsed.as_ref() else {
+        // the statement only speaks about texts the parser accepts; the model printed a text it expects to parse
+        let mut o = Outcome::ok(false);
+        o.diverge(format!("the parser rejects the model's text {text:?}"));
+        return o;
+    };
+    let mut o = Outcome::ok(has_operands(p));
+    for i in p.to_instructions() {
+        o.count(&st(&to_abs(&i), "k"));
+    }
+    if let Some((obs, want, got)) = rt.failure {
+        o.violate(Violation::new(&obs, want, got).note(format!("source {text:?}, printed {:?}", rt.t1)));
+        return o;
+    }
+    // model vs code (informational): listing and printed text
+    let want_listing = strip_q(&case["listing"]);
+    let got_listing = strip_q(&Value::Array(program_abs(p)));
+    if want_listing != got_listing {
+        o.diverge(format!("parsed listing differs from the model's: {got_listing} vs {want_listing}"));
+    }
+    if rt.t1.as_deref() != case["t1"].as_str() {
+        o.diverge(format!("printed text {:?} differs from the model's {:?} (it still round-trips)", rt.t1, case["t1"].as_str()));
+    }
+    o
+}
+
+// ------------------------------------------------------------------------------------------- drive
+
+/// Spellings the printer never emits (and a few it does), one snippet per entry; every instruction kind.
+pub const CORPUS: &[&str] = &[
+    "X 0", "CNOT 0 1", "RX(pi/2) 0", "RX(-(-pi)) 0", "RX(2^3^2) 0", "RX(1-2-3) 0", "RX(-2^2) 0", "RX(2*-3) 0", "RX(1+2i) 0",
+    "RX(-(1+2.0i)) 0", "RX((1+2i)*%x) 0", "RX(pi^(1+2i)) 0", "RX(PI) 0", "RX(SIN(%theta)) 0", "RX(i) 0", "RX(2 i) 0",
+    "RX(1.5e3) 0", "RX(1E-3) 0", "RX(.5) 0", "RX(1.) 0", "RX(0x10) 0", "RX(0b101) 0", "RX(0o17) 0", "RX(1_000) 0",
+    "RX(theta) 0", "RX(theta[2] - 1) 0", "RX(cis(-%x)/sqrt(2)) 0", "RX(exp(i*pi)) 0", "RX(%a, %b) q r", "RX(((%x))) 0",
+    "DAGGER X 0", "CONTROLLED DAGGER RX(%x) 0 1", "FORKED RY(pi, pi/2) 0 1", "my-gate 0 q", "G %q",
+    "MEASURE 0", "MEASURE 0 ro", "MEASURE 0 ro[1]", "MEASURE q ro[0]", "MEASURE!fast 0 ro[0]", "MEASURE!fast q",
+    "RESET", "RESET 0", "RESET q", "FENCE", "FENCE 0 1", "FENCE q",
+    "DELAY 0 1.0", "DELAY 0 1", "DELAY 0 1 2", "DELAY 0 \"rf\" 1e-6", "DELAY 0 1 \"rf\" \"ro_rx\" 2*pi", "DELAY q theta[0]",
+    "DELAY 0 theta", "DELAY 0 sin(1)", "DELAY q %x - 1", "DELAY 0 2 - 1", "DELAY 0 %t", "DELAY 0 pi/2", "DELAY 0 -1",
+    "PULSE 0 \"rf\" flat(duration: 1.0, iq: 1.0)", "PULSE 0 1 \"cz\" my/wf", "NONBLOCKING PULSE 0 \"rf\" gaussian(t0: 1, fwhm: 2, duration: 3)",
+    "PULSE 0 \"rf\" flat()", "PULSE 0 \"a\\\"b\\\\\" wf(iq: 1+2i, duration: -1)", "CAPTURE 0 \"ro\" flat(duration: 1.0, iq: 1.0) ro[0]",
+    "NONBLOCKING CAPTURE 0 \"ro\" boxcar_kernel(duration: 1e-6) ro", "RAW-CAPTURE 0 \"ro\" 1e-6 ro[0]", "NONBLOCKING RAW-CAPTURE 0 \"ro\" 2*%t iq",
+    "SET-FREQUENCY 0 \"rf\" 5e9", "SET-PHASE 0 \"rf\" pi/2", "SET-SCALE 0 \"rf\" 0.5", "SHIFT-FREQUENCY 0 1 \"cz\" -1e6", "SHIFT-PHASE 0 \"rf\" theta[0]",
+    "SHIFT-PHASE 0 \"rf\" -theta", "SWAP-PHASES 0 \"rf\" 1 \"rf\"",
+    "ADD ro 1", "ADD ro[1] -1", "SUB r 2.0", "MUL r -0.5", "DIV r r2[3]", "MOVE ro 0x1F", "MOVE r 1e20", "MOVE r 1E-7", "MOVE r .5", "MOVE r 2.", "MOVE r r2",
+    "AND ro 1", "IOR ro ro2[1]", "XOR ro -3", "SHL i2 2", "SHR i2 1", "ASHR i2 i3", "NEG r", "NOT ro[0]",
+    "EQ ro r r2", "GE ro[0] r[1] 2", "GT ro r 2.5", "LE ro r -1", "LT ro r -1.5", "CONVERT r ro", "EXCHANGE r r2[1]", "LOAD r rs idx", "STORE rs idx[1] 2.0", "STORE rs idx r",
+    "LABEL @start", "JUMP @start", "JUMP-WHEN @loop-1 ro", "JUMP-UNLESS @END ro[2]", "HALT", "NOP", "WAIT",
+    "PRAGMA foo", "PRAGMA INITIAL_REWIRING \"PARTIAL\"", "PRAGMA LOAD-MEMORY q0 1 \"addr\"", "PRAGMA EXTERN f \"INTEGER (x : REAL)\"", "PRAGMA x 0x10",
+    "INCLUDE \"lib.quil\"", "INCLUDE \"a \\\"b\\\" \\\\ c\"",
+    "CALL f", "CALL f ro", "CALL f ro[1] 2 3.5 2.0i theta", "CALL f 1i",
+    "DECLARE ro BIT", "DECLARE r REAL[4]", "DECLARE o OCTET[2]", "DECLARE i2 INTEGER[3] SHARING r", "DECLARE b BIT[8] SHARING r OFFSET 2 BIT 1 REAL",
+    "DEFGATE G:\n    1, 0\n    0, 1", "DEFGATE G AS MATRIX:\n\t1/sqrt(2), 1/sqrt(2)\n\t1/sqrt(2), -1/sqrt(2)", "DEFGATE G(%a) AS MATRIX:\n    cos(%a), -i*sin(%a)\n    -i*sin(%a), cos(%a)",
+    "DEFGATE P AS PERMUTATION:\n    0, 1, 3, 2", "DEFGATE U(%t) p q AS PAULI-SUM:\n    XY(-%t/4) p q\n    Z(pi) q",
+    "DEFGATE S2(%t) a b AS SEQUENCE:\n    H a\n    RX(%t) b\n    CNOT a b",
+    "DEFCIRCUIT BELL a b:\n    H a\n    CNOT a b", "DEFCIRCUIT ROT(%t) q:\n    RX(%t) q\n    MEASURE q ro[0]", "DEFCIRCUIT NOARGS:\n    X 0",
+    "DEFWAVEFORM wf:\n    1, 0.5i, 1+1i", "DEFWAVEFORM my/wf(%a):\n    %a, 2*%a", "DEFWAVEFORM w:\n\t0.0, 1e-3 + (-2e-4)*i",
+    "DEFFRAME 0 \"rf\":\n    DIRECTION: \"tx\"\n    INITIAL-FREQUENCY: 5e9\n    HARDWARE-OBJECT: \"q0_rf\"", "DEFFRAME 0 1 \"cz\":\n    SAMPLE-RATE: 1e9",
+    "DEFCAL X 0:\n    PULSE 0 \"rf\" flat(duration: 1e-7, iq: 1)", "DEFCAL RX(%theta) q:\n    SHIFT-PHASE q \"rf\" -%theta/2\n    NOP",
+    "DEFCAL RX(pi/2) 0:\n\tFENCE 0\n\tNOP", "DEFCAL CONTROLLED X 0 1:\n    NOP", "DEFCAL DAGGER CONTROLLED RX(%t) q 1:\n    DELAY q 1.0",
+    "DEFCAL MEASURE 0 addr:\n    CAPTURE 0 \"ro\" flat(duration: 1e-6, iq: 1) addr", "DEFCAL MEASURE q:\n    NOP", "DEFCAL MEASURE!fast q dest:\n    RAW-CAPTURE q \"ro\" 1e-6 dest",
+    "DEFFRAME 0 \"a\":\n    DIRECTION: \"tx\"\nDEFFRAME 0 \"b\":\n    DIRECTION: \"rx\"\nDEFFRAME 1 \"a\":\n    DIRECTION: \"tx\"\nDEFFRAME 0 1 \"cz\":\n    DIRECTION: \"tx\"\nDEFFRAME 2 \"c\":\n    SAMPLE-RATE: 1e9",
+    "DECLARE a BIT\nDECLARE b REAL[2]\nDECLARE c INTEGER\nDECLARE d OCTET\nDEFWAVEFORM w1:\n    1\nDEFWAVEFORM w2:\n    2\nDEFWAVEFORM w3:\n    3\nDEFGATE A AS PERMUTATION:\n    0, 1\nDEFGATE B AS PERMUTATION:\n    1, 0\nDEFGATE C AS PERMUTATION:\n    0, 1",
+    "# a comment", "X 0 # trailing comment", "X 0; Y 1", "X 0;;\n\n\nY 1",
+];
+
+fn fixture_texts(with_bench: bool) -> Vec<(String, String)> {
+    let mut v = vec![];
+    let mut files = vec!["tests/programs/calibration_cz.quil", "tests/programs/calibration_cz_phase.quil", "tests/programs/calibration_measure.quil",
+                         "tests/programs/calibration_rx.quil", "tests/programs/calibration_xy.quil"];
+    if with_bench {
+        files.push("benches/sample-calibrations.quil"); // 9 294 lines: thorough tier only
+    }
+    for f in files {
+        if let Ok(t) = std::fs::read_to_string(format!("/repo/quil-rs/{f}")) {
+            v.push((f.to_string(), t));
+        }
+    }
+    v
+}
+
+/// a seeded small edit of an accepted text (kept only if the parser still accepts the result)
+fn mutate(r: &mut impl Rng, text: &str) -> String {
+    let mut s = text.to_string();
+    match r.gen_range(0..8) {
+        0 => s = s.replace("[0]", ""),                       // bare memory references
+        1 => s = s.replace("    ", "\t"),                    // tab indentation
+        2 => s = s.replace('\n', "\n\n"),                     // blank lines (ends blocks)
+        3 => s = s.replace(" 1", " 0x1"),                    // hexadecimal integers
+        4 => s = s.replace("pi", "PI").replace("sin", "Sin"), // reserved words in other case
+        5 => s = format!("# head\n{s} # tail"),
+        6 => s = s.replace(", ", ","),                      // no blank after a comma
+        _ => s = s.replace(" + ", "+").replace(" * ", "*").replace(" / ", "/"),
+    }
+    s
+}
+
+pub fn drive(ctx: &Ctx) -> Summary {
+    let n = ctx.arg_u64("n", 150) as usize;
+    let max_listing = ctx.arg_u64("max_listing", 40) as usize;
+    let path = ctx.arg_str("out").expect("--out");
+    let mut out = std::io::BufWriter::new(std::fs::File::create(path).expect("create trace"));
+    let mut rng = util::rng(ctx.seed, 2);
+    let mut sum = Summary::default();
+    let fixtures = fixture_texts(ctx.flag("bench"));
+    // instruction texts harvested from the fixtures (as the real printer writes them: one per instruction)
+    let mut harvested: Vec<String> = vec![];
+    for (_, t) in &fixtures {
+        if let Ok(p) = Program::from_str(t) {
+            harvested.extend(p.to_instructions().iter().filter_map(|i| i.to_quil().ok()));
+        }
+    }
+    let mut sources: Vec<String> = fixtures.iter().map(|(_, t)| t.clone()).collect();
+    sources.extend(CORPUS.iter().map(|s| s.to_string()));
+    while sources.len() < n {
+        let k = rng.gen_range(1..=4);
+        let mut parts: Vec<String> = vec![];
+        for _ in 0..k {
+            let s = if !harvested.is_empty() && rng.gen_bool(0.4) { harvested.choose(&mut rng).unwrap().clone() } else { CORPUS.choose(&mut rng).unwrap().to_string() };
+            parts.push(if rng.gen_bool(0.4) { mutate(&mut rng, &s) } else { s });
+        }
+        sources.push(parts.join("\n"));
+    }
+    sources.truncate(n.max(fixtures.len()));
+    for src in &sources {
+        let rt = round_trip(src);
+        let Some(p) = rt.parsed.as_ref() else {
+            // not an accepted text: the statement says nothing about it
+            let o = Outcome::skip();
+            sum.absorb(&json!({"src": src}), &o, true);
+            continue;
+        };
+        let mut o = Outcome::ok(has_operands(p));
+        let short = if src.len() > 2000 { format!("{}…", &src[..src.char_indices().nth(2000).map(|x| x.0).unwrap_or(src.len())]) } else { src.clone() };
+        util::emit(&mut out, &json!({"ev": "reset", "fam": "text", "src": short}));
+        let listing = program_abs(p);
+        for i in &listing {
+            o.count(i["k"].as_str().unwrap());
+        }
+        let small = listing.len() <= max_listing && rt.t1.as_ref().map(|t| t.len() < 20_000).unwrap_or(false);
+        if small {
+            util::emit(&mut out, &json!({"ev": "parsed", "listing": listing}));
+            util::emit(&mut out, &json!({"ev": "printed", "t1": rt.t1.clone().unwrap_or_default()}));
+        }
+        let (reparsed, equal, same) = match &rt.failure {
+            None => (true, true, true),
+            Some((obs, _, _)) => (obs != "printed text parses" && obs != "serialization of the parsed program",
+                                  !obs.starts_with("re-parsed program") && obs != "printed text parses" && obs != "serialization of the parsed program",
+                                  false),
+        };
+        util::emit(&mut out, &json!({"ev": "done", "reparsed": reparsed, "equal": equal, "same": same}));
+        if let Some((obs, want, got)) = rt.failure {
+            o.violate(Violation::new(&obs, want, got).note(format!("source {short:?}")));
+        }
+        o.count_n("events", if small { 4 } else { 2 });
+        sum.absorb(&json!({"src": short}), &o, true);
+    }
+    sum
 }
